@@ -38,6 +38,10 @@ def layout(r, nseg, scale=1):
 
 
 def build(lead, lens, trailing, scale):
+    if lens and lens[0] == "huge":
+        b0 = (4 << 30) + 8192
+        segs = [[0, 4096], [b0, 70000], [b0 + (64 << 20) * scale, 4096]]
+        return segs[-1][0] + 4096 + (MIN_HOLE if trailing == "hole" else 0), segs
     segs, pos = [], 0
     if lead:
         pos += MIN_HOLE * scale
@@ -63,6 +67,8 @@ def gen_cases(tier, seed):
         driver = ["parblock", "parfile"][i % 2]
         nseg = r.choice([0, 1, 2, 3, 5, 8, 20, 33, 40, 70, 100] if tier == "thorough" else [0, 1, 2, 3, 5, 8, 33, 40, 70])
         lead, lens = layout(r, nseg)
+        if i % 37 == 5:
+            lens, nseg = ["huge"], 3
         trailing = r.choice(["data", "hole", "hole"])
         yield {"driver": driver, "lead": lead, "lens": lens, "trailing": trailing, "nseg": nseg, "block": blocks[i % len(blocks)],
                "workers": r.choice([1, 2, 4, 16]), "prior": r.choice(["absent", "absent", "full"]), "sync": r.random() < 0.6,
@@ -150,7 +156,7 @@ def run_case(case):
             if not r8["same"]:
                 res["viol"].append({"sig": sig0 + ":bytes", "what": "destination bytes differ from source (holes x8); " + tag})
             res["counters"]["scaled-pairs"] = 1
-        segsz = max([l for l, _, _ in case["lens"]] or [0])
+        segsz = max([l[0] for l in case["lens"] if l != "huge"] or [0])
         bsv = {"4096": 4096, "64KB": 65536, "1MB": 1000000, "16MB": 16000000, "np": 1 << 62}[case["block"]]
         res["evals"].append({"key": [case["driver"], case["fs"], "blk<seg" if bsv < segsz else "blk>=seg", "n=%s" % (case["nseg"] if case["nseg"] < 4 else "4-32" if case["nseg"] <= 32 else ">32"),
                                      case["lead"], case["trailing"], case["prior"]],
